@@ -189,6 +189,8 @@ LEVEL_TEXT['C14'] += ' Added (unit heredoc): the descriptor a here-document is r
 TECH['C14'] += ' + here_doc::open_fd / fill_content over a ghost file map'
 LEVEL_TEXT['C08'] += ' Added (unit vfork): a process forked in the simulated system inherits umask, working directory, resource limits, descriptors, dispositions, blocked signals and IDs from its parent (finding F8, repaired).'
 TECH['C08'] += ' + Process::fork_from of the simulated system (field-by-field inheritance contract)'
+LEVEL_TEXT['C17'] += ' Added (unit simpleparse): Parser::simple_command offers every token in command position exactly while no word of the command has been collected and reports AliasSubstituted to its caller only when nothing had been consumed.'
+TECH['C17'] += ' + Parser::simple_command (loop invariant over a ghost monitor of the offers made)'
 
 def main():
     checks = []
